@@ -6,7 +6,7 @@ from translate import PIN
 LEVEL = "proof"
 MANIFEST = dict(
     text='The quantifier is a finite table (164 modules, ~20 500 items): the kernel evaluates the decidable predicate PackModule.OK (item addressability Item.WF, key resolution, module naming, refresh window) over the WHOLE table regenerated from the working tree (decide +kernel, one obligation per module, assembled into `all_modules_ok`), proves the three known ill-formed items really are ill-formed, and proves every module pinned at the audited commit is present field-for-field (`layout_immutable`). Search: independent Python re-computation of well-formedness, pin diff item by item, FILES-reply naming for all 895 combinations.'
-         ' Since session 3: the EFFECTIVE read footprint of every pinned item is probed through the real read path (all ones / only the pinned field / everything but it). Session 4: the real GeckoAsyncSpa._connect is driven with a scripted FILES reply for every shipped (platform, cfg, log) and must import exactly the shipped modules. Session 5: the layout of a CONNECTED spa - tables instantiated over a block, both facades built and read on several wirings (single-speed / two-speed pumps, nothing, everything) - every live item must still have the layout its module publishes (live-layout). Round 15: layout of the live items of blocking sessions (second session per process) against the published layout.',
+         ' Since session 3: the EFFECTIVE read footprint of every pinned item is probed through the real read path (all ones / only the pinned field / everything but it). Session 4: the real GeckoAsyncSpa._connect is driven with a scripted FILES reply for every shipped (platform, cfg, log) and must import exactly the shipped modules. Session 5: the layout of a CONNECTED spa - tables instantiated over a block, both facades built and read on several wirings (single-speed / two-speed pumps, nothing, everything) - every live item must still have the layout its module publishes (live-layout). Round 15: layout of the live items of blocking sessions (second session per process) against the published layout. Round 16: blocking_declarations_are_made_for_each_connection (where the tables are turned into objects) over the regenerated skeleton.',
     note='Trusted: Lean kernel; harness/packs.py extraction by import (what the library sees after accessor __init__) + ast check for duplicate dict keys; pins/layout-236b7b1.json.gz is the layout at the audited commit. The generator input SpaPackStruct.xml is absent: well-formedness is judged on the shipped Python only.',
     technique='Lean 4 kernel evaluation (decide +kernel) of decidable predicates over the complete regenerated tables',
     design='5/C18',
@@ -393,7 +393,7 @@ def search_blocking_sessions(ctx):
 
 
 def run(ctx):
-    st = translate.run(["Packs", "Pinned"])
+    st = translate.run(["Packs", "Pinned", "Skeletons"])
     ctx.cov["translator"] = st
     for k, v in st.items():
         if v != "ok":
